@@ -474,7 +474,43 @@ def api_level(chk, binp, rng, thorough):
             dis.append({"what": "model-and-implementation-differ", "kind": src[k][0], "repertoire": hx(sorted(src[k][1])),
                         "text": hx(src[k][2]), "implementation": so[k] and " ".join("%X:%d" % p for p in so[k])})
     chk.note("model_vs_implementation_cases", len(allc))
-    return f1 + f2, dis
+    # context independence: what follows a cluster (another letter, an unrelated variation selector, a
+    # default ignorable) must not change how the cluster is normalized
+    ctx_cases = []
+    pick = list(range(0, len(strings), max(1, len(strings) // (2400 if thorough else 600))))
+    sufs = [[0x78], [0x78, 0xFE00], [0x78, 0x78, 0xFE00, 0x78], [0x78, 0x034F], [0x20, 0x78, 0xFE0F]]
+    for k in pick:
+        kind, rep, text = strings[k]
+        if o_t[k] is None:
+            continue
+        suf = sufs[(k // 7) % len(sufs)]
+        ctx_cases.append((k, set(rep) | set(suf), text + suf))
+    o_c = shape_many(binp, [(r, t) for _, r, t in ctx_cases])
+    f3 = []
+    for (k, rep, text), o in zip(ctx_cases, o_c):
+        n = len(strings[k][2])
+        if o is None:
+            f3.append(("string-panics", "context", rep, text, o, None))
+            continue
+        head = [g for g, c in o if c < n]
+        f3.append((k, rep, text, head))
+    # second pass: the clusters alone with the enlarged repertoires
+    alone = shape_many(binp, [(rep, strings[k][2]) for k, rep, text, head in [x for x in f3 if len(x) == 4]])
+    fails3 = [x for x in f3 if len(x) == 6]
+    j = 0
+    for x in f3:
+        if len(x) != 4:
+            continue
+        k, rep, text, head = x
+        a = alone[j]
+        j += 1
+        if a is None:
+            continue
+        if [g for g, _ in a] != head:
+            fails3.append(("cluster-normalized-differently-in-context", "context", rep, text, [(g, 0) for g in head], [g for g, _ in a]))
+    chk.note("context_independence_cases", len(ctx_cases))
+    chk.add_eval(len(ctx_cases), len(ctx_cases))
+    return f1 + f2 + fails3, dis
 
 
 def fail_payload(f):
